@@ -181,7 +181,8 @@ def hooks(log):
         b0 = int(self.best_index)
         pts = merits(self)
         eps = np.finfo(float).eps
-        tol = 10.0 * eps * max(self.models.n, self.models.npt) * max(abs(pts[b0][0]), 1.0)
+        # the rounding tolerance is c * max(|m|, 1) for the merit m of the CURRENT best point
+        tol = 10.0 * eps * max(self.models.n, self.models.npt)
         o_sbi(self)
         log["scans"].append((b0, pts, float(tol), int(self.best_index)))
 
@@ -376,6 +377,7 @@ def run(chk, rng, replay=None):
                 if any(m != m for m, _ in pts):
                     continue      # NaN merit values are outside the model
                 km = int(a.split(" ")[0])
+                tol = tol * max([1.0] + [abs(m) for m, _ in pts])
                 # the documented rule (the model) picks another point: is it a witness against the implementation's pick?
                 if pts[km][0] < pts[got_idx][0] - tol:
                     specfail.append(("run", d, (0, f"centre is not the point of least merit: point {got_idx} (merit {pts[got_idx][0]!r}) chosen although point {km} has merit {pts[km][0]!r}")))
@@ -385,9 +387,12 @@ def run(chk, rng, replay=None):
                     mism.append((d, ("set_best_index", got_idx), a))
             else:
                 sw = int(a.split(" ")[1])
-                pts, tol = rest
-                if any(pts[got_idx][0] > m + sw * tol for m, _ in pts if m == m):
-                    specfail.append(("run", d, (0, "centre is not the point of least merit")))
+                pts, c = rest
+                # conclusion of best_is_least_merit on the implementation's pick: least merit up to one tolerance (of a merit
+                # value IN THE SET) per switch made in favour of a smaller violation
+                T = c * max([1.0] + [abs(m) for m, _ in pts if m == m]) * (1 + 1e-12)
+                if any(pts[got_idx][0] > m + sw * T for m, _ in pts if m == m):
+                    specfail.append(("run", d, (0, f"centre is not the point of least merit: point {got_idx} of merit {pts[got_idx][0]!r} chosen among {[m for m, _ in pts]}")))
         else:
             if int(a) != got_idx:
                 mism.append((d, ("get_index_to_remove", got_idx), a))
